@@ -240,3 +240,75 @@ func VerifDepth(args []string) {
 	o2 := verifRunProg(s2, prog)
 	vAssert(o2.panics == "", "depth/larger-limit-still-completes")
 }
+
+func init() {
+	verifHarness["VerifCancelAtOutput"] = VerifCancelAtOutput
+}
+
+// verifCancelWriter cancels the context the moment the k-th line has been written: a clock the evaluator does
+// not control (VerifCancel's clock is the number of context checks, which the evaluator decides itself).
+type verifCancelWriter struct {
+	sb    strings.Builder
+	lines int
+	k     int
+	ctx   *verifFlagCtx
+}
+
+func (w *verifCancelWriter) Write(p []byte) (int, error) {
+	for _, c := range p {
+		if c == '\n' {
+			w.lines++
+		}
+	}
+	if w.lines >= w.k {
+		w.ctx.cancelled = true
+	}
+	return w.sb.Write(p)
+}
+
+type verifFlagCtx struct {
+	cancelled bool
+	checks    int
+}
+
+func (c *verifFlagCtx) Deadline() (time.Time, bool) { return time.Time{}, false }
+func (c *verifFlagCtx) Done() <-chan struct{}         { return nil }
+func (c *verifFlagCtx) Value(key any) any             { return nil }
+func (c *verifFlagCtx) Err() error {
+	c.checks++
+	if c.cancelled {
+		return errVerif
+	}
+	return nil
+}
+
+// VerifCancelAtOutput: when the context is cancelled right after the program printed its k-th line (top-level
+// prints, unbuffered), evaluation stops before it prints another line and returns an error. args: program, maxK
+func VerifCancelAtOutput(args []string) {
+	code, maxK := args[0], verifAtoi(args[1])
+	prog, ok := verifParse(code)
+	if !ok {
+		return
+	}
+	s, out := verifNewState(false)
+	s.Context = &verifFlagCtx{}
+	full := verifRunProg(s, prog)
+	if full.panics != "" || full.isErr {
+		return
+	}
+	total := strings.Count(out.String(), "\n")
+	k := vRange("k", 1, maxK)
+	if k >= total {
+		vReach("cancellation at or after the last line")
+		return
+	}
+	s2, _ := verifNewState(false)
+	ctx := &verifFlagCtx{}
+	w := &verifCancelWriter{k: k, ctx: ctx}
+	s2.Out, s2.LogOut, s2.Context = w, w, ctx
+	o := verifRunProg(s2, prog)
+	vReach("cancelled after a printed line")
+	vAssert(o.panics == "", "cancel-at-output/no-panic")
+	vAssert(o.isErr, "cancel-at-output/returns-an-error")
+	vAssert(w.lines == k, "cancel-at-output/lines-printed-after-cancellation")
+}
